@@ -65,12 +65,12 @@ def main():
         if demos:
             rc1, _ = sh([PY, os.path.basename(demos[0])], cwd=wt, env=env, timeout=900)
             demo_with = rc1
-            sh(["git", "stash", "push", "--", "pams"], cwd=wt)
+            sh(["git", "apply", "-R", os.path.join(out, "patch.diff")], cwd=wt)      # (no git stash: it is shared between worktrees)
             try:
                 rc0, _ = sh([PY, os.path.basename(demos[0])], cwd=wt, env=env, timeout=900)
                 demo_without = rc0
             finally:
-                sh(["git", "stash", "pop"], cwd=wt)
+                sh(["git", "apply", os.path.join(out, "patch.diff")], cwd=wt)
         meta["demo_exit_with_change"] = demo_with
         meta["demo_exit_without_change"] = demo_without
         meta["confirmed"] = bool(suite_ok and demo_with not in (0, None) and demo_without == 0)
